@@ -22,7 +22,8 @@ RULE = (
     "assembly of the FASTA's current bytes, or an exception; both cache files exist; if either was missing or not strictly "
     "newer before the call both were rewritten with the reference content. Sub-check crash (fault enumeration): the file "
     "operations of an indexing run (stat, open, every flush of k in {7,64,8192} bytes, close, replace/rename/unlink) are "
-    "numbered through vf/fsim.py; for a generated (FASTA, initial cache state in {none, valid, stale, only .fai, only .agp}, k) "
+    "numbered through vf/fsim.py; for a generated (FASTA, initial cache state in {none, valid, stale, only .fai, only .agp}, k, "
+    "temporary directory on the same or on another file system) "
     "the run is repeated with a crash injected before EVERY step j (unflushed data lost, completed steps persist) and a fresh "
     "un-shimmed auto_load must raise or equal the reference. Sub-check interleave: 2-3 virtual processes auto-loading the same "
     "FASTA, stepped one file operation at a time by a Hypothesis-drawn schedule (readers see the flushed prefix of a file "
@@ -95,6 +96,42 @@ def fresh_load_must_be_right(path, want, where):
 
 def new_dir():
     return Path(tempfile.mkdtemp(prefix="c15-", dir=fa.scratch()))
+
+
+class other_fs_tmpdir:
+    """
+    While active, the process-wide temporary directory ($TMPDIR / tempfile.tempdir) lies on a different
+    file system than the FASTA file (a node-local /tmp against a data volume), if the sandbox has one.
+    """
+
+    def __init__(self, work, enabled):
+        self.dir = None
+        if enabled:
+            dev = os.stat(work).st_dev
+            for cand in ("/dev/shm", "/tmp", "/run/lock"):
+                try:
+                    if os.stat(cand).st_dev != dev and os.access(cand, os.W_OK):
+                        self.dir = tempfile.mkdtemp(prefix="c15-tmp-", dir=cand)
+                        break
+                except OSError:
+                    continue
+
+    def __enter__(self):
+        self.saved = (os.environ.get("TMPDIR"), tempfile.tempdir)
+        if self.dir:
+            os.environ["TMPDIR"] = self.dir
+            tempfile.tempdir = None
+        return self
+
+    def __exit__(self, *a):
+        if self.dir:
+            if self.saved[0] is None:
+                os.environ.pop("TMPDIR", None)
+            else:
+                os.environ["TMPDIR"] = self.saved[0]
+            tempfile.tempdir = self.saved[1]
+            shutil.rmtree(self.dir, ignore_errors=True)
+        return False
 
 
 # --------------------------------------------------------------------------
@@ -352,7 +389,8 @@ def body_crash(case, rec):
         setup_state(template, data, other, case["initial"])
         restore(template, work)
         path = work / "asm.fa"
-        with fsim.Sim(work, keep=[path], chunk=case["chunk"]) as sim:
+        tmpctx = other_fs_tmpdir(work, case.get("tmp_other_fs"))
+        with tmpctx, fsim.Sim(work, keep=[path], chunk=case["chunk"]) as sim:
             try:
                 load(path)
             except Exception:  # noqa: BLE001
@@ -362,7 +400,7 @@ def body_crash(case, rec):
         outcomes = {"ok": 0, "raised": 0}
         for j in range(1, n + 1):
             restore(template, work)
-            with fsim.Sim(work, keep=[path], chunk=case["chunk"], crash_at=j) as sim_j:
+            with other_fs_tmpdir(work, case.get("tmp_other_fs")), fsim.Sim(work, keep=[path], chunk=case["chunk"], crash_at=j) as sim_j:
                 try:
                     load(path)
                 except fsim.Crash:
@@ -375,7 +413,8 @@ def body_crash(case, rec):
             rec.count("crash_points", n)
             rec.count("loads_ok_after_crash", outcomes["ok"])
             rec.count("loads_raised_after_crash", outcomes["raised"])
-            rec.note(case, first_write is not None and n > first_write, {"initial_" + case["initial"], f"chunk_{case['chunk']}"})
+            rec.note(case, first_write is not None and n > first_write, {"initial_" + case["initial"], f"chunk_{case['chunk']}"}
+                     | ({"tmpdir_on_other_filesystem"} if tmpctx.dir else set()))
     finally:
         shutil.rmtree(template, ignore_errors=True)
         shutil.rmtree(work, ignore_errors=True)
@@ -484,6 +523,7 @@ def crash_cases(draw):
         "other": draw(cache_fasta()),
         "initial": draw(st.sampled_from(INITIAL)),
         "chunk": draw(st.sampled_from([7, 64, 64, 8192])),
+        "tmp_other_fs": draw(st.integers(0, 2)) == 0,
     }
 
 
